@@ -282,3 +282,162 @@ def aligner_locate(c):
     for k_, inv in LOOPS_L3.items():
         c.loop(k_, inv=inv)
     c.ensures(**POST_L2)
+    # soundness-breaking mutants (DESIGN.md appendix A.1)
+    c.mutant("length = m + min(origin, 0)", "length = m")
+    c.mutant("cost <= cur_effective_length * max_error_rate", "cost <= length * max_error_rate", occurrence=1)
+    c.mutant("best.query_stop = j", "best.query_stop = j + 1")
+    c.mutant("first_i = 0 if self.stop_in_reference else m", "first_i = 0")
+    c.mutant("length >= self._min_overlap", "length >= self._min_overlap - 1", occurrence=1)
+    c.mutant("while last >= 0 and column[last].cost > k", "while last >= -1 and column[last].cost > k")
+    c.mutant("origin = previous_entry.origin", "origin = current_entry.origin")
+    c.mutant("cost_diag = diag_entry.cost + 1", "cost_diag = diag_entry.cost")
+    c.mutant("origin = diag_entry.origin", "origin = column[i].origin", occurrence=1)
+    c.mutant("column[last].cost > k", "column[last].cost >= k")
+    c.mutant("if cost == 0 and origin >= 0:", "if cost == 0:")
+    c.mutant("column[0].cost += insertion_cost_increment", "pass")
+    c.mutant("column[i].origin = min(0, min_n - i)", "column[i].origin = min(0, min_n - i) - 1")
+
+
+# ------------------------------------------------------------------------------ Dist: the true edit distance
+def _dist_def(a=None, q=None):
+    """Wagner-Fischer recurrence: Dist(a, q, i, j) = distance between ref[a:i] and query[q:j] (indel cost `indel`)."""
+    indel = z3.Int("indel")
+    x, y = z3.Ints("x!dd y!dd")
+    if a is None:
+        a, q = z3.Ints("a!dd q!dd")
+        vs = [a, q, x, y]
+    else:
+        vs = [x, y]
+    D = lambda i_, j_: DIST(a, q, i_, j_)
+    m3 = lambda u, v, w: z3.If(z3.And(u <= v, u <= w), u, z3.If(v <= w, v, w))
+    return [
+        z3.ForAll(vs, z3.Implies(z3.And(x == a, y >= q), D(x, y) == (y - q) * indel), patterns=[D(x, y)]),
+        z3.ForAll(vs, z3.Implies(z3.And(y == q, x >= a), D(x, y) == (x - a) * indel), patterns=[D(x, y)]),
+        z3.ForAll(vs, z3.Implies(z3.And(x > a, y > q), D(x, y) == m3(D(x - 1, y - 1) + z3.If(EQ(x - 1, y - 1), 0, 1),
+                                                                      D(x - 1, y) + indel, D(x, y - 1) + indel)), patterns=[D(x, y)]),
+    ]
+
+
+@lemma("dist_facts", props=["C01", "C02"])
+def dist_facts(lem):
+    """Facts about Dist proved by strong induction on i + j (for arbitrary fixed a, q): non-negativity, the two
+    one-step bounds, the diagonal lemma behind Ukkonen's cut-off, the upper bound max(i-a, j-q)*indel and the
+    length-difference lower bound."""
+    indel = z3.Int("indel")
+    a, q, i, j, x, y = z3.Ints("a!df q!df i!df j!df x!df y!df")
+    D = lambda i_, j_: DIST(a, q, i_, j_)
+    mx = lambda u, v: z3.If(u >= v, u, v)
+    P = lambda x_, y_: z3.And(D(x_, y_) >= 0, z3.Implies(y_ > q, D(x_, y_ - 1) <= D(x_, y_) + indel),
+                              z3.Implies(x_ > a, D(x_ - 1, y_) <= D(x_, y_) + indel))
+    UB = lambda x_, y_: D(x_, y_) <= mx(x_ - a, y_ - q) * indel
+    LBd = lambda x_, y_: D(x_, y_) >= (y_ - q) - (x_ - a)
+
+    def prove(lx):
+        DEF = [z3.Or(indel == 1, indel == 100000)] + _dist_def(a, q)
+        for nm, F in (("P", P), ("UB", UB), ("LB", LBd)):
+            IH = z3.ForAll([x, y], z3.Implies(z3.And(a <= x, q <= y, x + y < i + j), F(x, y)), patterns=[D(x, y)])
+            lx.vc(f"{nm}.strong_induction_step", DEF + [a <= i, q <= j, IH], F(i, j))
+        Pall = z3.ForAll([x, y], z3.Implies(z3.And(a <= x, q <= y), P(x, y)), patterns=[D(x, y)])
+        lx.vc("diagonal_from_P", DEF + [a < i, q < j, Pall], D(i - 1, j - 1) <= D(i, j))
+
+    def statement():
+        aa, qq, ii, jj = z3.Ints("a!ds q!ds i!ds j!ds")
+        Dd = DIST(aa, qq, ii, jj)
+        vs = [aa, qq, ii, jj]
+        return z3.And(*(_dist_def() + [
+            z3.ForAll(vs, z3.Implies(z3.And(aa <= ii, qq <= jj), Dd >= 0), patterns=[Dd]),
+            z3.ForAll(vs, z3.Implies(z3.And(aa <= ii, qq < jj), DIST(aa, qq, ii, jj - 1) <= Dd + indel), patterns=[Dd]),
+            z3.ForAll(vs, z3.Implies(z3.And(aa < ii, qq <= jj), DIST(aa, qq, ii - 1, jj) <= Dd + indel), patterns=[Dd]),
+            z3.ForAll(vs, z3.Implies(z3.And(aa < ii, qq < jj), DIST(aa, qq, ii - 1, jj - 1) <= Dd), patterns=[Dd]),
+            z3.ForAll(vs, z3.Implies(z3.And(aa <= ii, qq <= jj), Dd >= (jj - qq) - (ii - aa)), patterns=[Dd]),
+        ]))
+
+    lem.prove = prove
+    lem.statement = statement
+
+
+@lemma("dist_upper_bound", props=["C01", "C02"])
+def dist_upper_bound(lem):
+    """Instance of UB (proved in dist_facts): Dist(a, q, i, j) <= max(i - a, j - q) * indel for a <= i, q <= j."""
+    indel = z3.Int("indel")
+    lem.prove = lambda lx: None
+    lem.statement = lambda a, q, i, j: z3.Implies(z3.And(a <= i, q <= j), DIST(a, q, i, j) <= z3.If(i - a >= j - q, i - a, j - q) * indel)
+
+
+def merge_loops(*dicts):
+    out = {}
+    for d in dicts:
+        for k_, v in d.items():
+            out[k_] = out.get(k_, []) + list(v)
+    return out
+
+
+ALLOWED = lambda a, q: f"(({a} == 0 or {q} == min_n) and implies(not self.start_in_reference, {a} == 0) and implies(not self.start_in_query, {q} == min_n))"
+CI = lambda t, col, cost=None: (f"forall(a, 0, ({t}) + 1, forall(q, min_n, ({col}) + 1, implies({ALLOWED('a', 'q')}, "
+                                f"{cost or f'column[{t}].cost'} <= Dist(a, q, {t}, {col}) or Dist(a, q, {t}, {col}) > k)))")
+CI3 = lambda lo, hi, col: (f"forallp(w, {col}, ({col}) + 1, t, {lo}, {hi}, a, 0, t + 1, q, min_n, w + 1, implies({ALLOWED('a', 'q')}, "
+                           f"column[t].cost <= Dist(a, q, t, w) or Dist(a, q, t, w) > k), Dist(a, q, t, w))")
+BB = lambda t, col, c=None: (f"(implies(self.start_in_reference, {c or f'column[{t}].cost'} <= ({col}) * indel_()) and "
+                             f"implies(self.start_in_query, {c or f'column[{t}].cost'} <= ({t}) * indel_()))")
+LB = lambda t, col, c=None, o=None: (f"implies({c or f'column[{t}].cost'} <= k, {c or f'column[{t}].cost'} >= "
+                                     f"(({col}) - max({o or f'column[{t}].origin'}, 0)) - (({t}) + min({o or f'column[{t}].origin'}, 0)))")
+REST = lambda t, col: f"({BB(t, col)} and {LB(t, col)})"
+BESTC = "(best.cost == m + n + 1 or best.cost <= Dist(-min(best.origin, 0), max(best.origin, 0), best.ref_stop, best.query_stop))"
+RS = lambda o: f"(-min({o}, 0))"
+QS = lambda o: f"max({o}, 0)"
+WD = lambda t, col, c=None, o=None: (f"implies({c or f'column[{t}].cost'} <= k, Dist({RS(o or f'column[{t}].origin')}, {QS(o or f'column[{t}].origin')}, {t}, {col}) "
+                                     f"<= {c or f'column[{t}].cost'})")
+BESTD = "(best.cost == m + n + 1 or Dist(-min(best.origin, 0), max(best.origin, 0), best.ref_stop, best.query_stop) <= best.cost)"
+
+LOOPS_MIN = {
+    1: [CI3("0", "i_next", "min_n"), "forall(t, 0, i_next, " + REST("t", "min_n") + ")"],
+    2: [CI3("0", "i_next", "min_n"), "forall(t, 0, i_next, " + REST("t", "min_n") + ")"],
+    3: [CI3("0", "i_next", "min_n"), "forall(t, 0, i_next, " + REST("t", "min_n") + ")"],
+    4: [CI3("0", "i_next", "min_n"), "forall(t, 0, i_next, " + REST("t", "min_n") + ")"],
+    6: [CI3("0", "m + 1", "jcol"), "forall(t, 0, m + 1, " + REST("t", "jcol") + ")", "last == m or column[last].cost > k", BESTC,
+        "min_n == 0 or (self.start_in_query and not self.start_in_reference)"],
+    7: [CI3("0", "i_next", "j"), "forall(t, 0, i_next, " + REST("t", "j") + ")", CI3("i_next", "m + 1", "j - 1"),
+        "forall(t, i_next, m + 1, " + REST("t", "j - 1") + ")",
+        CI("i_next - 1", "j - 1", "diag_entry.cost") + " and " + BB("i_next - 1", "j - 1", "diag_entry.cost") + " and " + LB("i_next - 1", "j - 1", "diag_entry.cost", "diag_entry.origin"),
+        "last == m or column[last].cost > k or i_next > last"],
+    10: [BESTC],
+}
+LOOPS_EQ = {
+    1: ["forall(t, 0, i_next, " + WD("t", "min_n") + ")"], 2: ["forall(t, 0, i_next, " + WD("t", "min_n") + ")"],
+    3: ["forall(t, 0, i_next, " + WD("t", "min_n") + ")"], 4: ["forall(t, 0, i_next, " + WD("t", "min_n") + ")"],
+    6: ["forall(t, 0, m + 1, " + WD("t", "jcol") + ")", BESTD],
+    7: ["forall(t, 0, i_next, " + WD("t", "j") + ")", "forall(t, i_next, m + 1, " + WD("t", "j - 1") + ")",
+        WD("i_next - 1", "j - 1", "diag_entry.cost", "diag_entry.origin")],
+    10: [BESTD],
+}
+LOOPS_DIST = merge_loops(LOOPS_L3, LOOPS_MIN, LOOPS_EQ)
+
+
+def ub_ghost():
+    A_ = "(-min(column[i].origin, 0))"
+    Q_ = "max(column[i].origin, 0)"
+    return f"__lemma__('dist_upper_bound', {A_}, {Q_}, i, min_n)"
+
+
+def dist_layer(c):
+    locate_contract(c, "dist")
+    c.returns(OptT(TupT(Int, Int, Int, Int, Int, Int)))
+    c.ghost("__lemma__('eq_def', s1)\n__lemma__('dist_facts')", after="s2 = query_bytes")
+    for anchor in ("column[i].origin = 0", "column[i].origin = min(0, min_n - i)", "column[i].origin = max(0, min_n - i)", "column[i].origin = min_n - i"):
+        c.ghost(ub_ghost(), after=anchor)
+    c.requires(flag_sets_of_the_adapter_types="self.stop_in_query or (self.start_in_query and not self.start_in_reference)")
+
+
+@contract("_align.pyx", "Aligner.locate", props=["C01"], name="Aligner.locate@distance")
+def aligner_locate_distance(c):
+    dist_layer(c)
+    for k_, inv in LOOPS_DIST.items():
+        c.loop(k_, inv=inv)
+    c.ensures(L4_reported_errors_equal_the_true_edit_distance_of_the_two_intervals=
+              "implies(not is_none(result), val(result)[5] == Dist(val(result)[0], val(result)[2], val(result)[1], val(result)[3]))")
+    # completeness-side mutants that the soundness layers cannot see (appendix A.3)
+    c.mutant("cost_diag = diag_entry.cost + 1", "cost_diag = diag_entry.cost + 2")
+    c.mutant("last = min(m, k + 1)", "last = min(m, k)")
+    c.mutant("if last < m:\n            last += 1", "if last < m:\n            pass")
+    c.mutant("cost_deletion = previous_entry.cost + deletion_cost", "cost_deletion = current_entry.cost + deletion_cost")
+    c.mutant("min_n = max(0, n - m - k)", "min_n = max(0, n - m - k + 1)")
